@@ -123,7 +123,13 @@ def run(rep, tier, seed, keep=False):
         n = 0
         nreach = 0
         stmts = {}
-        for st in tlaval.parse_dump(dump + '.dump'):
+        # settings belong to the object, not to its class: next to the fresh class per state, every state is also
+        # replayed on an instance of ONE class shared by the whole run (the states before it - other settings, same
+        # names - are its history; the model has no such history, so the decision must be the same)
+        SharedProbe, shared_log = make_probe_class()
+        states = list(tlaval.parse_dump(dump + '.dump'))
+        rng.shuffle(states)
+        for st in states:
             s, form, name, dec = st['s'], str(st['form']), str(st['name']), st['dec']
             Probe, log = make_probe_class()
             obj = Probe()
@@ -160,6 +166,24 @@ def run(rep, tier, seed, keep=False):
                 except Exception as e:  # noqa
                     got = ('deny', list(log), type(e).__name__)
             rep.evaluations += 1
+            if text is not None:
+                objs = SharedProbe()
+                yaqlization.yaqlize(objs, yaqlize_attributes=bool(s['attrs']), yaqlize_methods=bool(s['methods']), yaqlize_indexer=bool(s['indexer']),
+                                    whitelist=[ENTRY[str(e)]() for e in sorted(s['wl'])] or None, blacklist=[ENTRY[str(e)]() for e in sorted(s['bl'])] or None,
+                                    attribute_remapping=remap, blacklist_remapped_attributes=bool(s['blr']))
+                del shared_log[:]
+                cs = ctx.create_child_context()
+                cs['o'] = objs
+                try:
+                    stmts[text].evaluate(context=cs)
+                    gots = ('ok', list(shared_log))
+                except Exception as e:  # noqa
+                    gots = ('deny', list(shared_log), type(e).__name__)
+                rep.evaluations += 1
+                if gots != got:
+                    rep.violation('C07/policy/depends-on-other-instances/%s' % form, '%s with settings %r: an instance of a class whose other instances were yaqlized with other settings gives %r, '
+                                  'an instance of a fresh class %r' % (text, {k: (sorted(str(x) for x in v) if isinstance(v, frozenset) else bool(v)) for k, v in s.items()}, gots, got),
+                                  {'form': form, 'name': name})
             if form == 'index' and text is not None:
                 # the same on an object whose class cannot be indexed: indexing must not turn into anything else
                 Probe2, log2 = make_probe_class(subscriptable=False)
